@@ -4,7 +4,7 @@
 # tree, the whole existing suite passes with the patch, the demo fails with the patch. Prints one line.
 ID="$1"; SRC="$2"
 W=/tmp/confirm-$ID
-export CARGO_NET_OFFLINE=true CARGO_TARGET_DIR=/var/tmp/confirm-target
+export CARGO_NET_OFFLINE=true CARGO_TARGET_DIR=${CONFIRM_TARGET:-/var/tmp/confirm-target}
 git -C /repo worktree remove --force "$W" 2>/dev/null; rm -rf "$W"
 git -C /repo worktree add -q --detach "$W" HEAD || exit 2
 trap 'git -C /repo worktree remove --force "$W" 2>/dev/null; rm -rf "$W"' EXIT INT TERM
